@@ -313,13 +313,12 @@ def _valid_bounds(E):
 
 def _imul_pre(E):
     """coefficient finite (A2); bounds valid; glue: the heap's model pointer of the materialised reaction is its model (None for a
-    model-less one); the context stack holds managers; inside a context the coefficient is not 0 (see DEFECT in the docstring)"""
+    model-less one); the context stack holds managers.  (Until the repair recorded in known_findings.jsonl the coefficient 0 had to
+    be excluded inside a context: see DEFECT in the docstring.)"""
     c = _c(E)
     mo = H(E, E.s0, "_model")[rid(E)]
     cs = [c.k == 0, _valid_bounds(E), C3._ctx_nonnull(E, "self"),
           mo == (ident_of(model_of(E).oid) if in_model(E) else NULL)]
-    if in_model(E):
-        cs.append(z3.Implies(_has_ctx(E), c.v != 0))
     return z3.And(*cs)
 
 
@@ -438,8 +437,9 @@ def _imul_no_undo(E):
 
 def _imul_undo(E):
     """(4) context open: exactly TWO registrations, both in the innermost context of the model, in this order:
-    partial(self._model._populate_solver, [self]) and then partial(self.__imul__, 1.0 / coefficient) - so that on exit the
-    inverse scaling runs first"""
+    partial(self._model._populate_solver, [self]) and then partial(setattr, self, "_metabolites", D) with D THE dictionary object
+    the reaction held at entry (which clause (1) proves unwritten) - so that on exit the entry stoichiometry is put back first,
+    exactly (no inverse scaling, hence also for the coefficient 0), and the solver rows are written once more afterwards"""
     tr = _trace(E)
     if not (len(tr) == 2 and all(ev[0] == "push" for ev in tr)):
         return [z3.BoolVal(False)]
@@ -447,14 +447,15 @@ def _imul_undo(E):
     ok1 = (isinstance(f1, VFunc) and f1.kind == "partial" and isinstance(f1.a, VFunc) and f1.a.kind == "bound"
            and isinstance(f1.a.a, VObj) and f1.a.a.oid == model_of(E).oid and f1.a.b == "_populate_solver" and len(f1.b) == 1
            and not f1.c and _one_reaction(E.s1, f1.b[0]) is not None and _one_reaction(E.s1, f1.b[0]).oid == E["self"].oid)
-    ok2 = (isinstance(f2, VFunc) and f2.kind == "partial" and isinstance(f2.a, VFunc) and f2.a.kind == "bound"
-           and isinstance(f2.a.a, VObj) and f2.a.a.oid == E["self"].oid and f2.a.b == "__imul__" and len(f2.b) == 1 and not f2.c
-           and isinstance(f2.b[0], VReal))
+    ok2 = (isinstance(f2, VFunc) and f2.kind == "partial" and isinstance(f2.a, VFunc) and f2.a.kind == "builtin"
+           and f2.a.a == "setattr" and len(f2.b) == 3 and not f2.c
+           and isinstance(f2.b[0], VObj) and f2.b[0].oid == E["self"].oid
+           and isinstance(f2.b[1], VConc) and f2.b[1].py == "_metabolites"
+           and isinstance(f2.b[2], VObj) and f2.b[2].oid == stoich_obj(E, E.s0).oid)
     if not (ok1 and ok2):
         return [z3.BoolVal(False)]
     nc, ec = C3._ctxs(E.s0, model_of(E))
-    inv = f2.b[0]
-    return [c1.t == ec[nc - 1], c2.t == ec[nc - 1], z3.And(inv.k == 0, inv.v * _c(E).v == 1)]
+    return [c1.t == ec[nc - 1], c2.t == ec[nc - 1]]
 
 
 def _returns_self(E):
@@ -699,30 +700,34 @@ REG.add(Contract(MR, "Reaction.__sub__", "C12", [("self", RXN), ("other", RXN)],
 KEYS_NEW = [KEY_MUL, KEY_ADD, KEY_SUB]
 
 
-# ================================================================ glue lemma: __imul__(c) followed by the registered __imul__(1.0 / c)
+# ================================================================ glue lemma: __imul__(c) followed by its registered undo functions
 def lemmas():
-    """undo-restores: closed formula over plain arrays built from the very clauses (1), (2), (3b) of the post-condition
-    (scale_facts, bounds_facts, rows_facts): the call with coefficient c != 0 (state 0 -> 1) followed by the call its registered
-    inverse makes, __imul__(ci) with ci * c = 1 (state 1 -> 2; it runs with the contexts hidden, i.e. as the no-context case),
-    gives back the keys, every coefficient and both bounds of state 0, and the solver rows hold the coefficients of state 0 again.
-    Exact real arithmetic (encoding assumption A2: floating-point rounding of x * c * (1.0 / c) is NOT modelled)."""
+    """undo-restores: closed formula over plain arrays built from the very clauses (1), (3b), (4) of the post-condition: the call
+    with ANY finite coefficient c (state 0 -> 1; clause (1): the dictionary object D held at entry is not written) followed by the
+    two registered functions in last-in-first-out order - setattr(self, "_metabolites", D) (state 1 -> 2: the attribute holds D
+    again, whose content is the entry content) and then _populate_solver([self]) (state 2 -> 3, by the ASSUMED effect on the ghost
+    matrix S used in clause (3b), instantiated with the stoichiometry of state 2) - gives back the keys and every coefficient of
+    state 0 EXACTLY (no arithmetic: also for c = 0, and without the rounding of x * c * (1.0 / c)), and the solver rows hold the
+    coefficients of state 0 again.  The bounds are put back by the `resettable` wrapper of the bounds setter (C03 kernel:
+    resettable.wrapper registers partial(setter, self, OLD value) before the setter runs), not by these two functions."""
     from pyvc.engine import Obl
     RB = z3.ArraySort(Ref, z3.BoolSort())
-    d0, d1, d2 = (z3.Const("la_d%d" % i, RB) for i in range(3))
-    v0, v1, v2 = (z3.Const("la_v%d" % i, RefReal) for i in range(3))
-    S1, S2 = z3.Const("la_S1", SMat), z3.Const("la_S2", SMat)
+    d0, d1, dD, d2 = (z3.Const("la_d%s" % i, RB) for i in ("0", "1", "D", "2"))
+    v0, v1, vD, v2 = (z3.Const("la_v%s" % i, RefReal) for i in ("0", "1", "D", "2"))
+    S1, S3 = z3.Const("la_S1", SMat), z3.Const("la_S3", SMat)
     ids = z3.Const("la_ids", z3.ArraySort(Ref, Id))
     f, b = z3.Const("la_f", Ref), z3.Const("la_b", Ref)
-    c, ci = z3.Real("la_c"), z3.Real("la_ci")
-    bd = [[VReal(z3.Int(f"la_{n}{i}_k"), z3.Real(f"la_{n}{i}_v")) for n in ("lb", "ub")] for i in range(3)]
-    kinds = [z3.And(x.k >= -1, x.k <= 1) for pair in bd for x in pair]
-    step1 = scale_facts(d0, v0, d1, v1, c) + bounds_facts(bd[0][0], bd[0][1], bd[1][0], bd[1][1], c) + rows_facts(S1, ids, f, b, d0, v0, c)
-    step2 = scale_facts(d1, v1, d2, v2, ci) + bounds_facts(bd[1][0], bd[1][1], bd[2][0], bd[2][1], ci) + rows_facts(S2, ids, f, b, d1, v1, ci)
+    c, one = z3.Real("la_c"), z3.RealVal(1)
     m = qv("lm", Ref)
+    # state 0 -> 1: the new dictionary (d1, v1) is the scaled one, the entry dictionary object still holds (dD, vD) == (d0, v0)
+    step1 = scale_facts(d0, v0, d1, v1, c) + rows_facts(S1, ids, f, b, d0, v0, c) + [dD == d0, vD == v0]
+    # state 1 -> 2: setattr puts the entry dictionary object back: the reaction's stoichiometry is that object's content
+    step2 = [d2 == dD, v2 == vD]
+    # state 2 -> 3: _populate_solver([self]) writes the rows from the stoichiometry of state 2 (rows_facts with coefficient 1)
+    step3 = rows_facts(S3, ids, f, b, d2, v2, one)
     goal = z3.And(FA([m], z3.And(d2[m] == d0[m], z3.Implies(d0[m], v2[m] == v0[m])), patterns=[d2[m], d0[m]]),
-                  xr_eq(bd[2][0], bd[0][0]), xr_eq(bd[2][1], bd[0][1]),
-                  FA([m], z3.Implies(d0[m], z3.And(S2[ids[m]][f] == v0[m], S2[ids[m]][b] == -v0[m])), patterns=[d0[m]]))
-    return [Obl("C02/lemma/Reaction.__imul__/undo-restores", step1 + step2 + kinds + [ci * c == 1], goal, "lemma")]
+                  FA([m], z3.Implies(d0[m], z3.And(S3[ids[m]][f] == v0[m], S3[ids[m]][b] == -v0[m])), patterns=[d0[m]]))
+    return [Obl("C02/lemma/Reaction.__imul__/undo-restores", step1 + step2 + step3, goal, "lemma")]
 
 
 # ================================================================ Reaction.__iadd__ with the PROVED contract of add_metabolites applied
